@@ -294,6 +294,7 @@ type stats struct {
 	Sat         int64            `json:"sat"`
 	Unsat       int64            `json:"unsat"`
 	Unknown     int64            `json:"unknown"`
+	Fallback    int64            `json:"second_solver"`
 	Cached      int64            `json:"cached_decisions"`
 	Concretized int64            `json:"concretisations"`
 	Switches    int64            `json:"context_switches"`
@@ -312,7 +313,7 @@ type replyMsg struct {
 }
 
 func statsOf(e *interp.Explorer) *stats {
-	return &stats{Paths: e.Paths, Instrs: e.Instrs, InitInstrs: e.InitInstrs, Queries: e.Queries, Sat: e.QSat, Unsat: e.QUnsat, Unknown: e.QUnknown,
+	return &stats{Paths: e.Paths, Instrs: e.Instrs, InitInstrs: e.InitInstrs, Queries: e.Queries, Sat: e.QSat, Unsat: e.QUnsat, Unknown: e.QUnknown, Fallback: e.QFallback,
 		Cached: e.Cached, Concretized: e.Concretized, Switches: e.Switches, Approx: e.Approx, SolverS: e.SolverNS.Seconds(),
 		FuncCalls: e.FuncCalls, ExtCalls: e.ExtCalls, Intercepted: e.Intercepted}
 }
@@ -423,6 +424,7 @@ func addStats(a *stats, b *stats) {
 	a.Sat += b.Sat
 	a.Unsat += b.Unsat
 	a.Unknown += b.Unknown
+	a.Fallback += b.Fallback
 	a.Cached += b.Cached
 	a.Concretized += b.Concretized
 	a.Switches += b.Switches
@@ -488,7 +490,7 @@ func subStats(a, b *stats) stats {
 		b = &stats{}
 	}
 	d := stats{Paths: a.Paths - b.Paths, Instrs: a.Instrs - b.Instrs, InitInstrs: a.InitInstrs - b.InitInstrs, Queries: a.Queries - b.Queries,
-		Sat: a.Sat - b.Sat, Unsat: a.Unsat - b.Unsat, Unknown: a.Unknown - b.Unknown, Cached: a.Cached - b.Cached, Concretized: a.Concretized - b.Concretized,
+		Sat: a.Sat - b.Sat, Unsat: a.Unsat - b.Unsat, Unknown: a.Unknown - b.Unknown, Fallback: a.Fallback - b.Fallback, Cached: a.Cached - b.Cached, Concretized: a.Concretized - b.Concretized,
 		Switches: a.Switches - b.Switches, Approx: a.Approx - b.Approx, SolverS: a.SolverS - b.SolverS}
 	sub := func(x, y map[string]int64) map[string]int64 {
 		r := map[string]int64{}
